@@ -420,7 +420,21 @@ def evo_op(b, rng, fail, fail_kinds=None):
             # so only the single-column rule can refuse the call
             c2 = rng.choice([x for x in range(C) if x != c])
             ws = list(wells)
-            where = rng.choice(["last", "first", "middle", "several"])
+            where = rng.choice(["last", "first", "middle", "middle", "several", "samerow"])
+            if where == "samerow":
+                # a well of another column inserted next to its row neighbour (A01, A02, B01): IDs ascending,
+                # first and last well in the same column, lengths of tips/volumes adjusted to match
+                j = rng.randrange(k)
+                extra = str(W[rows[j], c2])
+                ws = sorted(ws + [extra])
+                free = [t for t in range(1, 9) if t not in tips_n]
+                if free and len(ws) <= 8:
+                    op["tips"] = [("int", t) for t in sorted(tips_n + [free[0]])]
+                    op["vol"] = vols + [F(0)]
+                    op["wells"] = ("V", ws)
+                    return op
+                ws = list(wells)
+                where = "middle"
             if where == "middle" and k > 2:
                 j = rng.randint(1, k - 2)
                 ws[j] = str(W[rows[j], c2])
@@ -1029,6 +1043,23 @@ def run_C08(ctx):
                         m2 = f"{dev} position of {w} in {kind} {R}x{C} = {a}, expected {want}"
                 pcases.append({"line": f"{dev}_pos {gtok} {e(w)}", "impl": a,
                                "case": {"kind": "fn", "fn": dev + "_pos", "geom": [kind, R, C], "well": w}, "oracle": m2, "sig": f"C08:{dev}_pos"})
+        # the position field of the records a worklist operation emits (both devices): the last well of the
+        # geometry (largest position, > 1536 on large plates) and a random one, through dispense (empty labware)
+        for w in {G.wid(R - 1, C - 1), rng.choice(ids)}:
+            for dev in ("evo", "fluent"):
+                def emit():
+                    wl = impl.make_wl({"dev": dev, "max_volume": F(950)})
+                    wl.dispense(L, w, 1.0)
+                    L.remove(w, 1.0)
+                    recs = [r for r in wl if r.startswith("D;")]
+                    assert len(recs) == 1, recs
+                    return f"ok {int(recs[0].split(';')[4])}"
+                a = guarded(emit)
+                r, c = "ABCDEFGHIJKLMNOPQRSTUVWXYZ".index(w[0]), int(w[1:]) - 1
+                want = 1 + c if (dev == "fluent" and kind == "trough") else 1 + c * R + r
+                m2 = None if a == f"ok {want}" else f"{dev} D; record for well {w} of {kind} {R}x{C}: position field {a}, expected {want}"
+                pcases.append({"line": f"{dev}_pos {gtok} {e(w)}", "impl": a,
+                               "case": {"kind": "fn", "fn": dev + "_record_pos", "geom": [kind, R, C], "well": w}, "oracle": m2, "sig": f"C08:{dev}_record_pos"})
     for R in list(range(1, 27)) + [30, 40]:
         for C in ([1, 2, 12, 24, 99, 100] if ctx.tier == "quick" else list(range(1, 31)) + [99, 100, 120]):
             a1 = "ok " + ",".join(e(str(w)) for w in make_well_array(R, C).flatten())
@@ -1295,10 +1326,23 @@ def run_C17(ctx):
                             raise                # raised by __exit__/save (e.g. file name refused)
                     if abort is not None and not propagated:
                         raise AssertionError("verif: the with block swallowed the exception raised in its body")
+                    elif rng.random() < 0.35:
+                        # the file is replaced by something else, then the same worklist object is filled and
+                        # left again with the same records: the file must hold exactly the records again
+                        path.write_bytes(rng.choice([b"FOREIGN\r\n" * 300, b"f"]))
+                        res.dist["foreign overwrite between two saves"] += 1
+                        with wl2:
+                            for r in recs:
+                                wl2.append(r)
                 else:
                     wl.save(arg)
-                    if rng.random() < 0.3:
+                    x2 = rng.random()
+                    if x2 < 0.3:
                         wl.save(arg)             # repeated save
+                    elif x2 < 0.55:
+                        path.write_bytes(rng.choice([b"FOREIGN\r\n" * 300, b"f"]))   # someone else rewrites the file
+                        res.dist["foreign overwrite between two saves"] += 1
+                        wl.save(arg)             # saving again (unchanged records) must replace that content
             except Exception as e:  # noqa: BLE001
                 exc = e
             fname = path.name
@@ -1825,6 +1869,10 @@ def run_C13(ctx):
     rng = ctx.rng
     progs = corpus_progs(ctx) + [gen_evo_program(rng, p_fail=0.35) for _ in range(ctx.n(300))]
     stateful(ctx, res, "evo", progs, ["evo"], stop_on_error=False)
+    # selections spanning several columns in every arrangement (first / middle / last / several wells moved, a row
+    # neighbour inserted): IDs stay ascending, so only the single-column rule can refuse them
+    progs = [gen_evo_program(rng, p_fail=0.8, fail_kinds=["columns"]) for _ in range(ctx.n(60))]
+    stateful(ctx, res, "evo-multicolumn", progs, ["evo"], stop_on_error=False)
     return res
 
 
